@@ -251,13 +251,13 @@ def addSeq (s : State) (m : Meta) (o : Opts) (p : Nat) (gen : String) (e : Env) 
         | (s4, .error err) => (s4, .error err)
         | (s4, .ok q4) => (if o.stopped then s4 else start s4 q4.id, .ok q4.id)
 
-/-- `RemoveTorrent(id, keepData)`: delete from both indexes, delete the bucket, close the torrent,
-release its port.  Unknown id: nothing happens (`nil, nil`). -/
+/-- `RemoveTorrent(id, keepData)`: `delete(s.torrents, id)`, drop the torrent from the info-hash index,
+delete the bucket, close the torrent, release its port.  Unknown id: nothing happens (`nil, nil`). -/
 def remove (s : State) (id : String) : State :=
   match regGet s.reg id with
   | none => s
   | some t =>
-    { s with reg := s.reg.erase t, idx := s.idx.erase (t.f.infoHash, t.id),
+    { s with reg := s.reg.filter (fun x => x.id != id), idx := s.idx.erase (t.f.infoHash, t.id),
              db := s.db.filter (fun e => e.1 != id), free := t.f.port :: s.free }
 
 /-- `Torrent.AddTracker(uri)` with a URL the tracker manager accepts: the record's tier list and the
@@ -273,9 +273,17 @@ def bump (s : State) (id : String) (d : Counters) : State :=
   { s with reg := regModify s.reg id (fun r =>
       { r with cnt := ⟨r.cnt.dl + d.dl, r.cnt.ul + d.ul, r.cnt.wasted + d.wasted, r.cnt.seeded + d.seeded⟩ }) }
 
-/-- `updateStats`: the counters of every registered torrent are written to its bucket. -/
+/-- `updateStats`: the counters of every registered torrent are written to its bucket
+(`for _, t := range s.torrents { b := mb.Bucket(t.id); b.Put(…) }`; ids are map keys, so every bucket
+is written at most once and the loop is this map over the buckets). -/
 def updateStats (s : State) : State :=
-  { s with db := s.reg.foldl (fun db t => dbModify db t.id (fun r => { r with cnt := t.f.cnt })) s.db }
+  { s with db := s.db.map fun e => match regGet s.reg e.1 with
+      | some t => (e.1, { e.2 with cnt := t.f.cnt })
+      | none => e }
+
+/-- The Go loop dereferences `mb.Bucket(t.id)` without a nil check: it panics iff some registered
+torrent has no bucket. -/
+def updateStatsPanics (s : State) : Bool := s.reg.any fun t => !(s.dbIds.contains t.id)
 
 /-- `loadExistingTorrent`: `resumer.Read`, `newTorrent`, `delete(availablePorts, port)`,
 `insertTorrent`; the torrent is started afterwards iff `ResumeOnStartup` and the record says so. -/
@@ -299,9 +307,12 @@ def compactRec (t : Torrent) (r : Fields) : Fields :=
   { t.f with started := r.started, trackers := r.trackers, webseeds := r.webseeds }
 
 /-- `CompactDatabase`: a new database with one record per registered torrent that has metadata.
-`none` = it returns an error (a registered torrent without a readable record). -/
+`none` = it returns an error (`resumer.Read` fails for a registered torrent without a record). -/
 def compact (s : State) : Option (List (String × Fields)) :=
-  (s.reg.filter (·.f.hasInfo)).mapM fun t => (dbGet s.db t.id).map fun r => (t.id, compactRec t r)
+  let ts := s.reg.filter (·.f.hasInfo)
+  if ts.all (fun t => (dbGet s.db t.id).isSome) then
+    some (ts.map fun t => (t.id, compactRec t ((dbGet s.db t.id).getD t.f)))
+  else none
 
 /-- The pre-fix record: started flag from the momentary status, tier and web-seed lists from
 `rawTrackers` / `rawWebseedSources`, which are only set for torrents loaded at startup (`loaded`). -/
